@@ -490,7 +490,7 @@ def list_method(self, target_node, lst, m, e, st, spec):
     if m == "append":
         v = args[0]
         if V.comps(lst.elems.template):
-            v = self.coerce_elem(lst.elems.template, v)
+            v = self.coerce_elem(lst.elems.template, v, st)
         if len(V.comps(v)) != len(V.comps(lst.elems.template)):
             raise EngineError(f"append of {v!r} to a list of {lst.elems.template!r}")
         self.assign(target_node, lst.append(v), st, e)
@@ -508,8 +508,15 @@ def list_method(self, target_node, lst, m, e, st, spec):
     raise EngineError(f"list method {m}")
 
 
-def coerce_elem(self, template, v):
-    """adapt a value to the element shape of a list (T -> Optional[T], int -> float, component-wise in tuples)"""
+def coerce_elem(self, template, v, st=None):
+    """adapt a value to the element shape of a list (T -> Optional[T], int -> float, component-wise in tuples);
+    an Optional[Unit] stored where a Unit is expected must not be None (obligation when a state is given)"""
+    if isinstance(template, UnitV) and isinstance(v, Opt) and isinstance(v.val, UnitV) and st is not None:
+        self.oblige(st, z3.Not(v.isnone), f"unit-not-None#{len(self.obls)}", "exception-freedom", None,
+                    "a unit stored in a list of units is not None")
+        return v.val
+    if isinstance(template, Tup) and isinstance(v, Tup) and len(template.items) == len(v.items) and st is not None:
+        return Tup([coerce_elem(self, t, x, st) for t, x in zip(template.items, v.items)])
     if isinstance(template, Opt) and not isinstance(v, Opt):
         if isinstance(v, NoneV):
             return Opt(z3.BoolVal(True), V.fresh_like(template.val, "none"))
